@@ -24,6 +24,7 @@ def run(seed, check):
         out, rc = "", -1
     finally:
         subprocess.run(["git", "-C", "/repo", "checkout", "--", "."])
+        subprocess.run(["git", "-C", ROOT, "checkout", "--", "evidence"])      # evidence of a run against a seeded tree is not evidence
     viol = len(re.findall(r"^VIOLATION", out, re.M))
     return {"check": check, "exit": rc, "violations": viol, "wall_s": round(time.time() - t0, 1),
             "first": (re.search(r"^VIOLATION.*\n\s+(.*)", out, re.M).group(1)[:300] if viol else "")}
